@@ -6,7 +6,7 @@ from fractions import Fraction
 
 from sa.report import Cx
 from sa.walker import WalkOptions, _Ctx, State
-from sa.terms import (Sym, Attr, Sub, App, Num, Const, Fresh, TupleT, CompInfo, AIn, ATruthy, f_and, f_or, f_not, implies, compare, mk_cmp,
+from sa.terms import (FTrue, Sym, Attr, Sub, App, Num, Const, Fresh, TupleT, CompInfo, AIn, ATruthy, f_and, f_or, f_not, implies, compare, mk_cmp,
                       add, sub, atoms_of)
 from .common import TAGS, check_atomic, strip_versions
 
@@ -136,15 +136,33 @@ def run(cx: Cx):
         cx.inconclusive('R-GUARD', 'get_tag_name', 'no returning path', where=cx.where(gt), function=gt.qualname)
     it = cx.fn(TL + '.itemize')
     inames = Attr(Sym(it.params[0]), '_tag_names')
-    for p in cx.walker.paths(it, WalkOptions(unroll=1)):
+    ipaths = cx.walker.paths(it, WalkOptions(unroll=1))
+    from .common import list_facts, _loop_stage_table
+    itable = _loop_stage_table(ipaths)
+    ZERO = Num(Fraction(0))
+    ids = (App('range', (App('len', (inames,)),)), App('range', (ZERO, App('len', (inames,)))))
+    for p in ipaths:
         v = p.last.data.get('value') if p.end == 'return' else None
         good = False
-        if isinstance(v, Fresh) and isinstance(v.detail, CompInfo) and len(v.detail.gens) == 1:
-            tgt, src, conds = v.detail.gens[0]
-            if isinstance(src, App) and src.fn == 'enumerate' and src.args[0] == inames and len(src.args) == 1 and not conds \
-                    and isinstance(tgt, TupleT) and len(tgt.items) == 2:
-                i, nm = tgt.items
-                good = v.detail.elt == TupleT((nm, i)) and nm == Sub(inames, i)
+        v = strip_versions(v) if v is not None else None
+        if isinstance(v, Fresh) and v.kind in ('call:list', 'copy') and v.items and isinstance(v.items[0], App) and v.items[0].fn in ('zip', 'call') \
+                and not v.items[0].kw:
+            z = v.items[0]
+            zargs = z.args[1:] if z.fn == 'call' and z.args[:1] == (Sym('builtins.zip'),) else (z.args if z.fn == 'zip' else ())
+            # list(zip(names, range(len(names)))): the pairs (names[i], i) in id order
+            good = len(zargs) == 2 and strip_versions(zargs[0]) == inames and strip_versions(zargs[1]) in ids
+        elif isinstance(v, Fresh):
+            def is_base(src):
+                src = strip_versions(src)
+                return src in ids or (isinstance(src, App) and src.fn == 'enumerate' and src.args[0] == inames and
+                                      (len(src.args) == 1 or src.args[1] == ZERO) and not src.kw)
+            lf = list_facts(ipaths, p, v, is_base, itable)
+            if lf.ok and lf.key is None and lf.cond == FTrue and isinstance(lf.elem, TupleT) and len(lf.elem.items) == 2:
+                nm, i = lf.elem.items
+                idx = lf.base_var.items[0] if isinstance(lf.base_var, TupleT) and lf.base_var.items else lf.base_var
+                good = i == idx and isinstance(i, Sym) and strip_versions(nm) == Sub(inames, i)
+            elif lf.ok and lf.base_src is None:
+                good = True     # the loop is not entered on this path: nothing listed
         if good:
             cx.ok('R-ITER', 'itemize lists (name, id) for every id in id order', where=cx.where(it), function=it.qualname)
         else:
